@@ -168,7 +168,15 @@ def count_points(job):
     fsutil.restore(bdir, snap)
     r2 = server().run(argv_for(cmdname, root, backend), src, env=env, pre=('verif.fsfault', 'arm_sorted', (bdir, 0, log, 0)))
     points2 = fsfault.read_log(log)
-    same = [(p[1], p[3]) for p in points] == [(p[1], p[3]) for p in points2]
+    # (names made by tempfile.mkstemp/mkdtemp - compiler checks - differ between any two runs)
+    def norm(path):
+        return re.sub(r'/tmp[A-Za-z0-9_]{8}(?=/|$|\.)', '/tmp*', path)
+    same = [(p[1], norm(p[3])) for p in points] == [(p[1], norm(p[3])) for p in points2]
+    if not same:
+        import difflib
+        a = ['%s %s' % (p[1], norm(p[3])) for p in points]
+        b = ['%s %s' % (p[1], norm(p[3])) for p in points2]
+        sys.stderr.write('mutation sequences differ (%s/%s/%s):\n' % (job[0], job[3], job[4]) + '\n'.join(list(difflib.unified_diff(a, b, lineterm='', n=1))[:40]) + '\n')
     shutil.rmtree(root, ignore_errors=True)
     return (job, snap, before, points, r.rc, same)
 
